@@ -196,6 +196,12 @@ func (fc *funcContext) translateStmt(stmt ast.Stmt, label *types.Label) {
 			refExpr = fmt.Sprintf("$clone(%s, %s)", refExpr, fc.typeName(fc.typeOf(s.X)))
 		}
 		fc.Printf("%s = %s;", refVar, refExpr)
+		if ptr, isPtr := fc.typeOf(s.X).Underlying().(*types.Pointer); isPtr && s.Value != nil && !isBlank(s.Value) {
+			if _, isArray := ptr.Elem().Underlying().(*types.Array); isArray {
+				// Reading elements through a nil pointer to an array must panic.
+				fc.Printf("%s.nilCheck;", refVar)
+			}
+		}
 
 		switch t := fc.typeOf(s.X).Underlying().(type) {
 		case *types.Basic:
